@@ -361,6 +361,57 @@ theorem C04_attr_compiled (m : AttributeMatcher) (name value : Bytes) (pcs : Par
     rw [hr, Option.some.injEq] at this
     simp only [Option.some.injEq, exists_eq_left', this]
 
+/-- The case mode CSS + HTML prescribe for `[name op value flag]` on an element: `i` — insensitive;
+`s` — sensitive; no flag — insensitive iff the element is an HTML element and `name`, lower-cased,
+is one of the 46 attributes HTML lists as case-insensitive for selectors; else sensitive. -/
+def resolvedCase (flags : AttributeFlags) (name : Bytes) (isHtml : Bool) : Case :=
+  match flags with
+  | .asciiCaseInsensitive => .asciiInsensitive
+  | .caseSensitive => .sensitive
+  | .caseSensitivityDependsOnName =>
+    if isHtml = true ∧ name.map lower ∈ asciiCaseInsensitiveHtmlAttributes then .asciiInsensitive
+    else .sensitive
+
+/-- **C04_attr_selector.** End to end for one attribute selector, from its parsed text
+(`parseAttributeSelector`: name, operand, flag, operator) through the compiler to the closure run on
+an element: no panic, and — outside the empty-operand defect — it fires iff the first attribute
+named `name` (ASCII-case-insensitively) exists and satisfies the CSS operator in the prescribed
+case mode. ∀ names (any case), operands, flags, operators, attribute lists, namespaces. -/
+theorem C04_attr_selector (m : AttributeMatcher) (name value : Bytes) (flags : AttributeFlags)
+    (op : Op) (h : value ≠ [] ∨ op = .equal ∨ op = .dashMatch ∨ op = .substring) :
+    ∃ r, compiledAttrExpr false (parseAttributeSelector name value flags op) m = some r ∧
+      (r = true ↔ ∃ v, firstAttr m.attributes name = some v ∧
+        OpHolds op (resolvedCase flags name m.isHtmlElement) v value) := by
+  unfold parseAttributeSelector
+  obtain ⟨r, hr, hiff⟩ := C04_attr_compiled m (makeAsciiLowercase name) value
+    (flags.toCaseSensitivity (makeAsciiLowercase name) false) op h
+  refine ⟨r, hr, ?_⟩
+  rw [hiff, firstAttr_makeAsciiLowercase]
+  have hcase : toCase (toUnconditional (flags.toCaseSensitivity (makeAsciiLowercase name) false)
+      m.isHtmlElement) = resolvedCase flags name m.isHtmlElement := by
+    have hn : makeAsciiLowercase name = name.map lower := by
+      unfold makeAsciiLowercase; rw [map_lower_eq]
+    cases flags
+    · rfl
+    · rfl
+    · simp only [AttributeFlags.toCaseSensitivity, resolvedCase, Bool.not_false, Bool.true_and,
+        List.contains_iff_mem, hn]
+      by_cases hmem : name.map lower ∈ asciiCaseInsensitiveHtmlAttributes
+      · cases hh : m.isHtmlElement <;> simp [hmem, toUnconditional, toCase]
+      · simp [hmem, toUnconditional, toCase]
+  rw [hcase]
+
+/-- Non-vacuity: `[TYPE="text"]` on `<x type="TEXT">` fires in HTML (listed name), not in SVG;
+`[data-k^="a" i]` on `<x DATA-K="Ab">` fires. -/
+example :
+    compiledAttrExpr false (parseAttributeSelector [84, 89, 80, 69] [116, 101, 120, 116]
+      .caseSensitivityDependsOnName .equal) ⟨[([116, 121, 112, 101], [84, 69, 88, 84])], true⟩ = some true ∧
+    compiledAttrExpr false (parseAttributeSelector [84, 89, 80, 69] [116, 101, 120, 116]
+      .caseSensitivityDependsOnName .equal) ⟨[([116, 121, 112, 101], [84, 69, 88, 84])], false⟩ = some false ∧
+    compiledAttrExpr false (parseAttributeSelector [100, 97, 116, 97, 45, 107] [97]
+      .asciiCaseInsensitive .pre) ⟨[([68, 65, 84, 65, 45, 75], [65, 98])], true⟩ = some true := by
+  decide
+
 /-- Negation (`:not([…])`, compiler.rs:103-109) flips the answer and nothing else. -/
 theorem C04_attr_compiled_negation (e : OnAttributesExpr) (m : AttributeMatcher) :
     compiledAttrExpr true e m = (compiledAttrExpr false e m).map not := by
